@@ -66,7 +66,7 @@ class BulkModulus:
 
         """
         self._volumes = np.array(volumes)
-        self._energies = np.array(energies)
+        self._energies = np.array(energies, dtype="double")
         self._eos_name = eos
         self._eos = get_eos(self._eos_name)
 
@@ -260,7 +260,7 @@ class QHA:
 
         """
         self._volumes = np.array(volumes)
-        self._electronic_energies = np.array(electronic_energies)
+        self._electronic_energies = np.array(electronic_energies, dtype="double")
         if pressure is not None:
             self._electronic_energies += self._volumes * pressure / EVAngstromToGPa
         self._all_temperatures = np.array(temperatures)
